@@ -21,6 +21,7 @@ type CommitSpec struct {
 type Spec struct {
 	NPub, NSec int
 	UnusedPub  []int // public inputs (index >= 1) that appear in no constraint
+	ZeroPub    []int // public inputs assigned the value 0 by Assign (only meaningful for unused ones)
 	Muls       int   // length of the squaring chain
 	Commits    []CommitSpec
 }
@@ -188,6 +189,11 @@ func (s *Spec) Assign(rng *rand.Rand, p *big.Int) (pub, sec []*big.Int) {
 	}
 	for i := range sec {
 		sec[i] = RandFieldElem(rng, p)
+	}
+	for _, z := range s.ZeroPub {
+		if z > 0 && z < len(pub) {
+			pub[z] = new(big.Int)
+		}
 	}
 	out := s.Eval(pub, sec, p)
 	if s.NPub > 0 {
